@@ -368,3 +368,20 @@ Definition wfg (g : grammar) (pf : nat) : bool :=
   (let t := prod_tbl g pf in forallb (node_ok g (fun c => nth c t false)) (g_nodes g)) && opt_none (g_comments g)
   && Nat.ltb (g_top g) (length (g_nodes g)) && eol_ws_ok g.
 Definition orc_pos (orc : nat -> nat -> option nat) : Prop := forall o p n, orc o p = Some n -> 0 < n.
+
+(* ---------------------------------------------------------------- the class with unordered groups
+   An unordered group without separator (and without eolterm) all of whose members are productive: the
+   interpreter and the reference clause agree - each round takes the first remaining member that matches,
+   the group succeeds exactly when every member was matched once. *)
+Definition ug_ok (g : grammar) (pr : nat -> bool) (nd : node) : bool :=
+  match n_kind nd with
+  | KUnord =>
+    opt_none (n_sep nd) && negb (n_eolterm nd) && opt_none (n_ws nd) && opt_none (n_skipws nd) &&
+    forallb (fun c => Nat.ltb c (length (g_nodes g))) (n_kids nd) &&
+    match n_kids nd with [] => false | _ => true end && forallb pr (n_kids nd)
+  | _ => false
+  end.
+Definition node_ok_u (g : grammar) (pr : nat -> bool) (nd : node) : bool := node_ok g pr nd || ug_ok g pr nd.
+Definition wfgu (g : grammar) (pf : nat) : bool :=
+  (let t := prod_tbl g pf in forallb (node_ok_u g (fun c => nth c t false)) (g_nodes g)) && opt_none (g_comments g)
+  && Nat.ltb (g_top g) (length (g_nodes g)) && eol_ws_ok g.
